@@ -111,6 +111,7 @@ package lang
 // ---- C28: function IDs (lang/funcid.go) -------------------------------------------------------------------
 
 //@ type funcID guarded_by mutex: list
+//@ type funcID atomic latest
 
 //@ func (*funcID).Deregister [C28 C05 C19]
 //@   requires f != nil && f.list != nil
